@@ -829,6 +829,9 @@ func checkCounterPaths(p *core.Program, fn *ssa.Function, entry string, add func
 		}
 	})
 	if newCall == nil {
+		if checkCounterPathsSplit(p, fn, entry, add) {
+			return
+		}
 		add("V7 "+entry+" counter", "-", core.FuncName(fn), core.Lost, "no call of execution.New")
 		return
 	}
@@ -952,4 +955,189 @@ func checkCounterPaths(p *core.Program, fn *ssa.Function, entry string, add func
 	if npaths == 0 {
 		add("V7 "+entry+" counter", "-", core.FuncName(fn), core.Lost, "no path from execution.New to a return")
 	}
+}
+
+// incLabel returns the constant label of a `counter.WithLabelValues(label).Inc()` call ("?" if not constant).
+func incLabel(c *ssa.Call) (string, bool) {
+	if !c.Call.IsInvoke() || c.Call.Method.Name() != "Inc" {
+		return "", false
+	}
+	label := "?"
+	if wl, ok := c.Call.Value.(*ssa.Call); ok && len(wl.Call.Args) >= 2 {
+		if sl, ok := wl.Call.Args[1].(*ssa.Slice); ok {
+			if al, ok := sl.X.(*ssa.Alloc); ok {
+				for _, r := range core.Referrers(al) {
+					if ia, ok := r.(*ssa.IndexAddr); ok {
+						for _, rr := range core.Referrers(ia) {
+							if st, ok := rr.(*ssa.Store); ok {
+								if cst, ok := st.Val.(*ssa.Const); ok && cst.Value != nil {
+									label = constant.StringVal(cst.Value)
+								}
+							}
+						}
+					}
+				}
+			}
+		}
+	}
+	return label, true
+}
+
+// checkCounterPathsSplit handles query creation whose planning part (plan, execution.New, triggerFallback, the
+// counter) was moved into a helper method that reports through a bool result whether the query falls back:
+//   - in the helper every path from execution.New to a return increments the counter exactly once, with the label
+//     "true" exactly when the returned bool is the constant true;
+//   - in the entry point the embedded engine is consulted only on the true branch of that bool, every non-nil query
+//     is returned after the helper was called, and the entry point does not touch the counter itself.
+//
+// It returns false if fn has no such helper.
+func checkCounterPathsSplit(p *core.Program, fn *ssa.Function, entry string, add func(key, site, fn, status, detail string)) bool {
+	var helperCall *ssa.Call
+	var helper *ssa.Function
+	var newCall *ssa.Call
+	core.EachInstr(fn, func(b *ssa.BasicBlock, i int, ins ssa.Instruction) {
+		c, ok := ins.(*ssa.Call)
+		if !ok {
+			return
+		}
+		h := c.Call.StaticCallee()
+		if h == nil || !p.InRepo(h) || h.Blocks == nil || recvNamed(h) != recvNamed(fn) {
+			return
+		}
+		core.EachInstr(h, func(_ *ssa.BasicBlock, _ int, hi ssa.Instruction) {
+			if hc, ok := hi.(*ssa.Call); ok && core.IsStatic(&hc.Call, modExecution+".New") {
+				helperCall, helper, newCall = c, h, hc
+			}
+		})
+	})
+	if helper == nil {
+		return false
+	}
+	// the bool result
+	boolIdx := -1
+	res := helper.Signature.Results()
+	for i := 0; i < res.Len(); i++ {
+		if types.Identical(res.At(i).Type(), types.Typ[types.Bool]) {
+			boolIdx = i
+		}
+	}
+	if boolIdx < 0 {
+		add("V7 "+entry+" counter", p.Pos(helperCall.Pos()), core.FuncName(fn), core.Undecided, "planning was moved into "+core.FuncName(helper)+", which does not report the path taken through a bool result")
+		return true
+	}
+	// (a) the helper
+	npaths := 0
+	var walk func(b *ssa.BasicBlock, from int, labels []string, visited map[*ssa.BasicBlock]bool)
+	walk = func(b *ssa.BasicBlock, from int, labels []string, visited map[*ssa.BasicBlock]bool) {
+		if visited[b] {
+			return
+		}
+		visited[b] = true
+		defer delete(visited, b)
+		labels = append([]string{}, labels...)
+		for _, ins := range b.Instrs[from:] {
+			if c, ok := ins.(*ssa.Call); ok {
+				if l, ok := incLabel(c); ok {
+					labels = append(labels, l)
+				}
+			}
+			if ret, ok := ins.(*ssa.Return); ok {
+				npaths++
+				key := fmt.Sprintf("V7 %s path #%d", entry, npaths)
+				rs := core.RetResults(ret)
+				fb, isConst := false, false
+				if boolIdx < len(rs) {
+					if c, ok := rs[boolIdx].(*ssa.Const); ok && c.Value != nil {
+						fb, isConst = constant.BoolVal(c.Value), true
+					}
+				}
+				want := "false"
+				if fb {
+					want = "true"
+				}
+				switch {
+				case !isConst:
+					add(key, p.Pos(ret.Pos()), core.FuncName(helper), core.Undecided, "the helper's path result is not a constant")
+				case len(labels) != 1:
+					add(key, p.Pos(ret.Pos()), core.FuncName(helper), core.Violated, fmt.Sprintf("the query counter is incremented %d times on this path through query creation", len(labels)))
+				case labels[0] != want:
+					add(key, p.Pos(ret.Pos()), core.FuncName(helper), core.Violated, fmt.Sprintf("the path reports fallback=%v but counts fallback=%q", fb, labels[0]))
+				default:
+					add(key, p.Pos(ret.Pos()), core.FuncName(helper), core.Held, "one increment, fallback="+want)
+				}
+				return
+			}
+		}
+		for _, s := range b.Succs {
+			walk(s, 0, labels, visited)
+		}
+	}
+	walk(newCall.Block(), core.InstrIndex(newCall)+1, nil, map[*ssa.BasicBlock]bool{})
+	// the true label is counted only under triggerFallback
+	core.EachInstr(helper, func(b *ssa.BasicBlock, _ int, ins ssa.Instruction) {
+		c, ok := ins.(*ssa.Call)
+		if !ok {
+			return
+		}
+		if l, ok := incLabel(c); !ok || l != "true" {
+			return
+		}
+		gated := false
+		for _, gb := range helper.Blocks {
+			iff := core.IfOf(gb)
+			if iff == nil {
+				continue
+			}
+			if tc, ok := iff.Cond.(*ssa.Call); ok && tc.Call.StaticCallee() != nil && tc.Call.StaticCallee().Name() == "triggerFallback" && core.BranchDominates(gb, 0, b) {
+				gated = true
+			}
+		}
+		if !gated {
+			add("V7 "+entry+" consults the embedded engine only under triggerFallback", p.Pos(c.Pos()), core.FuncName(helper), core.Violated, "the fallback path is taken on a branch that did not ask triggerFallback: DisableFallback is not honoured there")
+		}
+	})
+	// (b) the entry point
+	var fbVal ssa.Value
+	for _, r := range core.Referrers(helperCall) {
+		if ex, ok := r.(*ssa.Extract); ok && ex.Index == boolIdx {
+			fbVal = ex
+		}
+	}
+	core.EachInstr(fn, func(b *ssa.BasicBlock, i int, ins ssa.Instruction) {
+		if c, ok := ins.(*ssa.Call); ok {
+			if _, isInc := incLabel(c); isInc {
+				add("V7 "+entry+" counter", p.Pos(c.Pos()), core.FuncName(fn), core.Violated, "the entry point increments the query counter although its planning helper already counted the query")
+			}
+			if strings.HasPrefix(core.CalleeName(&c.Call), "(*"+pkgPromql+".Engine).New") {
+				gated := false
+				for _, gb := range fn.Blocks {
+					iff := core.IfOf(gb)
+					if iff != nil && fbVal != nil && iff.Cond == fbVal && core.BranchDominates(gb, 0, b) {
+						gated = true
+					}
+				}
+				key := "V7 " + entry + " consults the embedded engine only under triggerFallback"
+				if gated {
+					add(key, p.Pos(c.Pos()), core.FuncName(fn), core.Held, "the call is on the true branch of the planning helper's fallback result")
+				} else {
+					add(key, p.Pos(c.Pos()), core.FuncName(fn), core.Violated, "the embedded Prometheus engine creates the query on a path that is not the fallback branch of the planning helper")
+				}
+			}
+		}
+		ret, ok := ins.(*ssa.Return)
+		if !ok || b == fn.Recover {
+			return
+		}
+		rs := core.RetResults(ret)
+		if len(rs) != 2 || core.IsNilConst(rs[0]) {
+			return
+		}
+		if !core.BlockDominates(helperCall.Block(), b) {
+			add("V7 "+entry+" returns a query only after planning", p.Pos(ret.Pos()), core.FuncName(fn), core.Violated, "a query is returned on a path that bypasses the planning helper (execution.New, triggerFallback and the query counter)")
+		}
+	})
+	if npaths == 0 {
+		add("V7 "+entry+" counter", "-", core.FuncName(helper), core.Lost, "no path from execution.New to a return")
+	}
+	return true
 }
